@@ -27,11 +27,12 @@ def is_sim_path(p):
 
 
 class Inode:
-    __slots__ = ("data", "ino")
+    __slots__ = ("data", "ino", "fifo")
 
-    def __init__(self, ino, data=b""):
+    def __init__(self, ino, data=b"", fifo=False):
         self.data = bytearray(data)
         self.ino = ino
+        self.fifo = fifo  # a named pipe / /dev/fd entry: exists, can be opened and read once, is not a regular file
 
 
 class HandlePlan:
@@ -261,6 +262,8 @@ class SimFS:
             return _os.stat_result((_stat.S_IFDIR | 0o755, abs(hash(path)) % (1 << 30), 1, 2, 0, 0, 4096, 0, 0, 0))
         if path in self.files:
             ino = self.files[path]
+            if ino.fifo:
+                return _os.stat_result((_stat.S_IFIFO | 0o600, ino.ino, 1, 1, 0, 0, 0, 0, 0, 0))
             return _os.stat_result((_stat.S_IFREG | 0o644, ino.ino, 1, 1, 0, 0, len(ino.data), 0, 0, 0))
         raise self._missing(path)
 
@@ -282,6 +285,11 @@ class SimFS:
         path = self.norm(path)
         self.makedirs(posixpath.dirname(path), exist_ok=True)
         self.files[path] = self.new_inode(data)
+
+    def put_fifo(self, path, data):
+        """Harness-side: a pipe-like node holding what a producer already wrote (and closed)."""
+        self.put(path, data)
+        self.files[self.norm(path)].fifo = True
 
     def get(self, path):
         return bytes(self.files[self.norm(path)].data)
@@ -309,7 +317,8 @@ class SimFS:
         return self.norm(path) in self.dirs
 
     def isfile(self, path):
-        return self.norm(path) in self.files
+        ino = self.files.get(self.norm(path))
+        return ino is not None and not ino.fifo
 
     def realpath(self, path):
         return self.norm(path)
@@ -450,6 +459,8 @@ class SimFS:
             plan = self.read_plans.get(path)
             label = "%s#r%d" % (path[len(ROOT):], n_open)
         raw = SimRaw(self.world, inode, mode, path, plan, label)
+        if inode.fifo:
+            raw.seekable_flag = False
         self.handles.append(raw)
         self.world.log("fs", "open", path[len(ROOT):], "".join(sorted(set(mode))))
         if buffering == 0:
